@@ -286,6 +286,13 @@ def countWordsSlice : P String := do
   let s ← str
   pure s!"{countWords s.toList}"
 
+/-- `wordcounter sample text` → the counter `SelectWordCounter(sample)` picks and its count of text -/
+def wordcounterSlice : P String := do
+  let sample ← str; let text ← str
+  let c := selectCounter sample.toList
+  let name := match c with | .full => "Full" | .letter => "Letter" | .fast => "Fast"
+  pure s!"{name} {c.count text.toList}"
+
 def attrsStr (as : List Attr) : String := " ".intercalate (as.map (fun a => s!"{hex a.key}={hex a.val}"))
 
 /-- `strip tree` → attributes of every element after StripAttributes, pre-order -/
@@ -605,6 +612,7 @@ def dispatch (slice : String) : Option (P String) :=
   | "convert" => some convertSlice
   | "builder" => some builderSlice
   | "countwords" => some countWordsSlice
+  | "wordcounter" => some wordcounterSlice
   | "strip" => some stripSlice
   | "title" => some titleSlice
   | "textblocks" => some textblocksSlice
